@@ -165,6 +165,16 @@ def jobs(tier, seed):
             out.append(_j(f'1street-{n}p-manual-showdown',
                           C.custom(stacks, ONE, hand_types=HILO, antes=1, autos=SHOWAUTO, plan=plan),
                           opts={'show': (None, True, False)}))
+    # full tables: six and nine players with a ladder of stacks (up to eight side pots), every assignment of ranks to seats (quick: a fixed stride through them),
+    # histories within two deviations of "everybody calls" (one shove and everybody calls builds the whole ladder)
+    for stacks, step in [((1, 2, 3, 4, 5, 6), 3), ((6, 2, 5, 1, 4, 3), 7), ((1, 2, 3, 4, 5, 6, 7, 8, 9), 41), ((5, 9, 1, 7, 3, 8, 2, 6, 4), 43)]:
+        n = len(stacks)
+        pats = [r for r in product('JQK', repeat=n) if max(r.count(x) for x in 'JQK') <= 3]
+        for ranks in pats[::step if not th else 1]:
+            left = {r: list('shd') for r in 'JQK'}
+            plan = [r + left[r].pop(0) for r in ranks]
+            out.append(_j(f'1street-{n}p-ladder', C.custom(stacks, ONE, deck='KUHN9', hand_types=HILO, antes=1, plan=plan),
+                          opts={'raises': 'minmax'}, dev_bound=2))
     # two streets with a board, 1-2 boards, run-outs (cash), rake
     for stacks in [(3, 4), (2, 3, 5)] + ([(2, 4, 4), (2, 3, 4, 5)] if th else []):
         n = len(stacks)
